@@ -37,7 +37,7 @@ from renormalizer.mps import gs as gsmod
 from renormalizer.mps.gs import optimize_mps
 from renormalizer.mps.lib import cvec2cmat
 from renormalizer.mps.matrix import asnumpy, asxp
-from renormalizer.utils import CompressConfig, CompressCriteria
+from renormalizer.utils import CompressConfig, CompressCriteria, Quantity
 from renormalizer.utils.configs import OFS
 
 import renormalizer.tn.gs as tngs
@@ -328,6 +328,11 @@ def run_chain_case(run, rng, kind, big=False, force=None):
         procedure = gen_procedure(rng, int(tm.dim) if full else mfull, nroots, full)
 
     h = tm.dense_h()
+    # the operator handed to the optimiser is not always the plain `Mpo(model)`: constant offset
+    off = float(np.round(rng.uniform(-1.5, 1.5), 3)) if (not stacked and rng.random() < 0.3) else 0.0
+    if off != 0.0:
+        h = h - off * np.eye(len(h))
+    run.count(f"chain:mpo-with-offset={off != 0.0}")
     mask = tm.sector_mask(qntot)
     hs = h[np.ix_(mask, mask)]
     w, v = np.linalg.eigh(hs)
@@ -355,7 +360,7 @@ def run_chain_case(run, rng, kind, big=False, force=None):
         mpo = StackedMpo([Mpo(model, terms=g) for g in groups])
     else:
         stacked = False
-        mpo = Mpo(model)
+        mpo = Mpo(model, offset=Quantity(off)) if off != 0.0 else Mpo(model)
     if full or big:
         m0 = procedure[0][0]
     else:
@@ -382,7 +387,7 @@ def run_chain_case(run, rng, kind, big=False, force=None):
     cfg = dict(kind=kind, big=big, method=method, algo=algo, nroots=nroots, omega=omega, inverse=inverse,
                ofs=None if ofs is None else ofs.name, stacked=stacked, m0=m0, full=full,
                procedure=[[p[0] if isinstance(p[0], int) else p[0].bond_dim_max_value, p[1]] for p in procedure],
-               qntot=qntot.tolist(), sector_dim=int(sdim))
+               qntot=qntot.tolist(), sector_dim=int(sdim), mpo_offset=off)
     replay = dict(model=tm.describe(), cfg=cfg, exact=w[:6].tolist())
     for k_, v_ in cfg.items():
         if k_ in ("kind", "method", "algo", "nroots", "inverse", "ofs", "stacked", "full", "big"):
